@@ -232,6 +232,7 @@ func Main() {
 		}
 	}()
 
+	repeats := map[string]int{}
 	one := func(t *verifsim.Tape, seed uint64, keep bool) *Outcome {
 		before := raceLogSize(racePrefix)
 		var o *Outcome
@@ -257,6 +258,24 @@ func Main() {
 		}
 		if keep || len(o.Violations) > 0 {
 			o.Tape = t.Log
+		}
+		if !keep && len(o.Violations) > 0 {
+			// a violation class that keeps recurring in this process is reported in full the first
+			// few times and then only counted: the tape and the detail text stay out of the output
+			fresh := false
+			for _, v := range o.Violations {
+				k := v.Rule + "\x00" + v.Signature
+				repeats[k]++
+				if repeats[k] <= 4 || v.Rule == "data_race" {
+					fresh = true
+				}
+			}
+			if !fresh {
+				o.Tape, o.Sample = nil, nil
+				for i := range o.Violations {
+					o.Violations[i].Detail = ""
+				}
+			}
 		}
 		return o
 	}
